@@ -153,6 +153,23 @@ Section Blocks.
   Qed.
 End Blocks.
 
+(* The known finding, as a theorem about the faithful model: with start level <> end level the block rows (every block starts again
+   from the START level, although the previous block ended at the END level) admit schedules whose physical level leaves [0, size]:
+   size 4, start 3, end 1, two blocks of two steps, one unit discharged per step: level 2, 1, 0, -1. *)
+Lemma blocks_start_ne_end_refuted :
+  exists p n dt aa x t, n = List.length dt /\ blocks_coherent aa n = true /\ sp_inflow p == 0 /\ storage_ctor_ok p = true /\
+    Forall (row_ok x) (st_block_rows p n dt aa) /\ in_box (st_l p n dt) (st_u p n dt) x /\ (t < n)%nat /\
+    level p n dt x t < 0.
+Proof.
+  exists (Build_storage_p "s" ["n"]%string 4 2 2 3 1 0 0 0 1 0 None false None), 4%nat, [1; 1; 1; 1], [0; 2; 4]%nat, [1; 1; 1; 1], 3%nat.
+  split; [reflexivity|]. split; [vm_compute; reflexivity|]. split; [vm_compute; reflexivity|]. split; [vm_compute; reflexivity|].
+  split; [|split; [|split]].
+  - set (r := st_block_rows _ _ _ _). vm_compute in r. subst r. repeat constructor; vm_compute; intuition discriminate.
+  - vm_compute. intuition discriminate.
+  - repeat constructor.
+  - vm_compute. reflexivity.
+Qed.
+
 (* ---- correspondence: the level rows of a storage with a block size of fixed duration, against the implementation's rows ---- *)
 From EAO Require Import Cert Corr.
 Definition c05_block_case (rg : option rgrid) (p : storage_p) (s e B : Z) (P : lp) : list bool :=
